@@ -117,7 +117,20 @@ def judge_default(ctx, inst, S):
     actual = S.ret
     expected = inst.expect(ctx)
     lane_bits = vt.eb if inst.ret == "V" else None
-    v, detail, wit = lanecheck.compare(actual, expected, S, ctx.argspecs, ctx.names, lane_bits, inst.pure)
+    argspecs = ctx.argspecs
+    ld = getattr(inst, "lane_dom", None)
+    if ld is not None:
+        # restrict every lane of the vector arguments to the documented domain
+        def mkdom(bits, lb):
+            def dom(v):
+                r = 0
+                for i in range(bits // lb):
+                    r |= ld((v >> (i * lb)) & ((1 << lb) - 1)) << (i * lb)
+                return r
+            return dom
+        argspecs = [(b, lb, mkdom(b, lb) if lb else None) for (b, lb, d) in argspecs]
+    v, detail, wit = lanecheck.compare(actual, expected, S, argspecs, ctx.names, lane_bits, inst.pure,
+                                       env_ok=getattr(inst, "env_ok", None))
     rule = "normal form of %s == %s" % (inst.op, T.show(expected, 3, ctx.names))
     if v == HOLDS and S.unknown:
         v, detail = UNDECIDED, "matches but body contains unmodelled %s" % S.unknown[:3]
@@ -147,6 +160,8 @@ def analyse_job(job):
         key = inst.key(_C, vt)
         ks = json.dumps(key, sort_keys=True)
         if ks in miss:
+            if getattr(inst, "optional", False):
+                continue
             out.append((key, MISSING, miss[ks], "wrapper must compile", None))
             continue
         f = m["functions"].get(inst.fname)
